@@ -85,6 +85,23 @@ Theorem C01_integer_divide : forall a b v, conformable a b = true -> kb_vec a b 
   num_tree a = true -> num_tree b = true -> nonzero_tree b = true -> s2 sc_idiv a b = Ok v -> m_idiv a b = Ok v.
 Proof. exact idiv_spec. Qed.
 Print Assumptions C01_integer_divide.
+(* T1.op in the form "inside the domain the reference defines, outside every known-finding class, the verb returns
+   the prescribed value": exactly the predicates dom_dyad / k_dyad the harness uses as its property oracle *)
+Theorem C01_plus_holds_outside_K : forall a b, canonical a && canonical b = true ->
+  dom_dyad "eval_dyad_add" a b = true -> k_dyad "eval_dyad_add" a b = ""%string ->
+  m_dyad "eval_dyad_add" a b = s_dyad "eval_dyad_add" a b.
+Proof. exact plus_holds_outside_K. Qed.
+Print Assumptions C01_plus_holds_outside_K.
+Theorem C01_minus_holds_outside_K : forall a b, canonical a && canonical b = true ->
+  dom_dyad "eval_dyad_subtract" a b = true -> k_dyad "eval_dyad_subtract" a b = ""%string ->
+  m_dyad "eval_dyad_subtract" a b = s_dyad "eval_dyad_subtract" a b.
+Proof. exact minus_holds_outside_K. Qed.
+Print Assumptions C01_minus_holds_outside_K.
+Theorem C01_times_holds_outside_K : forall a b, canonical a && canonical b = true ->
+  dom_dyad "eval_dyad_multiply" a b = true -> k_dyad "eval_dyad_multiply" a b = ""%string ->
+  m_dyad "eval_dyad_multiply" a b = s_dyad "eval_dyad_multiply" a b.
+Proof. exact times_holds_outside_K. Qed.
+Print Assumptions C01_times_holds_outside_K.
 (* strings, characters and symbols are compared as wholes *)
 Theorem C01_less_atoms : forall a b, is_arr a = false -> is_arr b = false -> m_less a b = sc_less a b.
 Proof. exact less_atoms. Qed.
@@ -119,6 +136,14 @@ Theorem C01_take : forall n b, canonical b = true ->
   m_dyad "eval_dyad_take" (VI n) b = s_dyad "eval_dyad_take" (VI n) b.
 Proof. exact take_holds. Qed.
 Print Assumptions C01_take.
+
+(* Take in T1.op form: inside its domain and outside the known-finding classes (homogenise, take-matrix) — this
+   includes matrices and higher-rank arrays when the count does not exceed the number of rows *)
+Theorem C01_take_holds_outside_K : forall a b, canonical a && canonical b = true ->
+  dom_dyad "eval_dyad_take" a b = true -> k_dyad "eval_dyad_take" a b = ""%string ->
+  m_dyad "eval_dyad_take" a b = s_dyad "eval_dyad_take" a b.
+Proof. exact take_holds_outside_K. Qed.
+Print Assumptions C01_take_holds_outside_K.
 
 (* Drop: all of its domain *)
 Theorem C01_drop : forall a b, canonical a && canonical b = true ->
